@@ -168,7 +168,8 @@ Den(g_) ==
 (* ------------------------------------------------------------ parameter grids *)
 Sizes == 1..N
 LowerSets(n, dv, sv) == Tuples(TLCEval([t \in 1..((n * (n + 1)) \div 2) |->
-                           IF \E i \in 1..n : t = LIdx(i, i) THEN dv ELSE sv]))
+                           IF \E i \in 1..n : t = LIdx(i, i) THEN dv
+                           ELSE IF n = 4 /\ ~(\E i \in 2..n : t = LIdx(i, i - 1)) THEN {1} ELSE sv]))
 SpdGens ==
   UNION {
     LET dv == IF n <= 2 THEN {1, 2, 3} ELSE IF n = 3 THEN {1, 2} ELSE {1, 3}
@@ -182,6 +183,7 @@ ReflVecs(n) ==
     [] n = 2 -> IF Level = 1 THEN {<<1, -2>>, <<0, 0>>} ELSE {<<1, 1>>, <<1, -2>>, <<0, 0>>}
     [] n = 3 -> IF Level = 1 THEN {<<1, 1, 1>>, <<1, -2, 0>>} ELSE {<<1, 1, 1>>, <<1, -2, 0>>, <<0, 1, 1>>, <<2, 1, -2>>}
     [] n = 4 -> IF Level = 1 THEN {<<1, 1, 1, 1>>} ELSE {<<1, 1, 1, 1>>, <<1, 0, -1, 2>>, <<0, 1, 1, 0>>}
+ReflVecsSmall(n) == IF n = 3 THEN {<<1, 1, 1>>, <<1, -2, 0>>} ELSE IF n = 4 THEN {<<1, 1, 1, 1>>, <<1, 0, -1, 2>>} \cap ReflVecs(4) ELSE ReflVecs(n)
 EigVals == IF Level = 1 THEN {-2, 0, 1, 2} ELSE {-2, -1, 0, 1, 2, 3}
 SymReflGens ==
   UNION {
@@ -195,7 +197,7 @@ SymReflGens ==
 (* real roots (non-increasing) and complex pairs x^2 + b x + c, degree = n *)
 PairSet == IF Level = 1 THEN {<<0, 1>>, <<-2, 2>>, <<2, 5>>} ELSE {<<0, 1>>, <<-2, 2>>, <<2, 5>>, <<1, 1>>, <<-4, 5>>}
 RootVals == IF Level = 1 THEN {-2, -1, 1, 3} ELSE {-3, -2, -1, 0, 1, 2, 3}
-RootSets(kk) == {s \in Tuples(TLCEval([t \in 1..kk |-> RootVals])) : NonIncreasing(s)}
+RootSets(kk) == {s \in Tuples(TLCEval([t \in 1..kk |-> IF kk = 4 THEN {-2, -1, 1, 3} ELSE RootVals])) : NonIncreasing(s)}
 PairSeqs(np) == IF np = 0 THEN {<<>>}
                 ELSE IF np = 1 THEN {pr : pr \in PairSet}
                 ELSE {p1 \o p2 : p1 \in PairSet, p2 \in PairSet}
@@ -219,9 +221,10 @@ TriangGens ==
   UNION {
     {G("triang", n, n, d, u, <<>>, k) :
        d \in {s \in Tuples(TLCEval([t \in 1..n |-> IF Level = 1 THEN {-1, 2, 3} ELSE {-2, -1, 0, 2, 3}])) : NonIncreasing(s) \/ n <= 2},
-       u \in (IF n <= 3 /\ Level = 2 THEN Tuples(TLCEval([t \in 1..((n * (n - 1)) \div 2) |-> TriVals]))
+       u \in (IF n <= 2 /\ Level = 2 THEN Tuples(TLCEval([t \in 1..((n * (n - 1)) \div 2) |-> TriVals]))
               ELSE {TLCEval([t \in 1..((n * (n - 1)) \div 2) |-> c]) : c \in {0, 2}}
-                   \cup {TLCEval([t \in 1..((n * (n - 1)) \div 2) |-> ((t * 2) % 3) - 1])}),
+                   \cup {TLCEval([t \in 1..((n * (n - 1)) \div 2) |-> ((t * 2) % 3) - 1])}
+                   \cup (IF Level = 2 THEN {TLCEval([t \in 1..((n * (n - 1)) \div 2) |-> ((t * t + 1) % 4) - 1])} ELSE {})),
        k \in {0, 1}}
     : n \in Sizes}
 
@@ -229,30 +232,30 @@ BidiagGens ==
   UNION {
     {G("bidiag", m, n, d, e, <<>>, 0) :
        m \in {mm \in n..(n + 1) : mm <= N},
-       d \in Tuples(TLCEval([t \in 1..n |-> IF Level = 1 THEN {0, 2} ELSE {-1, 0, 2}])),
-       e \in Tuples(TLCEval([t \in 1..(n - 1) |-> IF Level = 1 THEN {0, 1} ELSE {-1, 0, 1}]))}
+       d \in Tuples(TLCEval([t \in 1..n |-> IF Level = 1 \/ n = 4 THEN {0, 2} ELSE {-1, 0, 2}])),
+       e \in Tuples(TLCEval([t \in 1..(n - 1) |-> IF Level = 1 THEN {0, 1} ELSE IF n = 4 THEN {-1, 0} ELSE {-1, 0, 1}]))}
     : n \in Sizes}
 
 TridiagGens ==
   UNION {
     {G("tridiag", n, n, d, e, <<>>, 0) :
-       d \in Tuples(TLCEval([t \in 1..n |-> IF Level = 1 THEN {-1, 3} ELSE {-1, 0, 3}])),
-       e \in Tuples(TLCEval([t \in 1..(n - 1) |-> IF Level = 1 THEN {0, 1} ELSE {-2, 0, 1}]))}
+       d \in Tuples(TLCEval([t \in 1..n |-> IF Level = 1 \/ n = 4 THEN {-1, 3} ELSE {-1, 0, 3}])),
+       e \in Tuples(TLCEval([t \in 1..(n - 1) |-> IF Level = 1 THEN {0, 1} ELSE IF n = 4 THEN {-2, 1} ELSE {-2, 0, 1}]))}
     : n \in Sizes \ {1}}
 
 HessGens == {G("hess", n, n, <<t>>, <<>>, <<>>, 0) : n \in Sizes \ {1}, t \in 0..(IF Level = 1 THEN 3 ELSE 11)}
 
 DenseGens ==
   {G("dense", m, n, <<t>>, <<zr, zc>>, <<dup>>, 0) :
-     n \in Sizes, m \in Sizes, t \in 0..(IF Level = 1 THEN 1 ELSE 7),
+     n \in Sizes, m \in Sizes, t \in 0..(IF Level = 1 THEN 1 ELSE 3),
      zr \in 0..N, zc \in 0..N, dup \in {0, 1}}
 
 SvdVals == IF Level = 1 THEN {-2, 0, 1, 3} ELSE {-2, -1, 0, 1, 2, 3}
 SvdReflGens ==
   UNION { UNION {
     {G("svdrefl", m, n, d, v, w, k) :
-       d \in {s \in Tuples(TLCEval([t \in 1..n |-> SvdVals])) : NonIncreasing(s) \/ (Level = 2 /\ n <= 2)},
-       v \in ReflVecs(m), w \in ReflVecs(n), k \in (IF Level = 1 THEN {1} ELSE {0, 1})}
+       d \in {s \in Tuples(TLCEval([t \in 1..n |-> IF n >= 3 THEN {-2, 0, 1, 3} ELSE SvdVals])) : NonIncreasing(s) \/ (Level = 2 /\ n <= 2)},
+       v \in ReflVecs(m), w \in (IF n >= 3 THEN ReflVecsSmall(n) ELSE ReflVecs(n)), k \in (IF Level = 2 /\ n = 1 THEN {0, 1} ELSE {1})}
     : m \in {mm \in Sizes : mm >= n}} : n \in Sizes}
 
 WellFormed(g_) ==
@@ -330,12 +333,12 @@ SuffPD(g_) ==
   /\ LET Lt == LdlL(g_)  D == LdlD(g_)  A == Num(g_)
          gamma == Rat(MaxInts(TLCEval([i \in 1..g_.n |-> Abs(A[i][i])])), Den(g_))
      IN \A j \in 1..g_.n : \A i \in (j + 1)..g_.n :
-          LET c == RMul(Lt[i][j], D[j]) IN RLe(RMul(c, c), RMul(D[j], gamma))
+          RLe(RMul(RMul(Lt[i][j], Lt[i][j]), D[j]), gamma)          \* c^2 <= d_j gamma with c = l_ij d_j, divided by d_j > 0
 
 (* ------------------------------------------------------------ contracts *)
 (* pattern names (interface to the harness projection and to FactorizationTrace):                      *)
 (*  lower unitlower diag posdiag nonnegdiag upper upperbidiag tridiag hessenberg quasiupper orth       *)
-(*  orthcols any none                                                                                  *)
+(*  orthcols any (finite) free (nothing promised beyond the defining equation) none                   *)
 (* equations: F1F1t  F1F2F1t  F1F2  F1F2F3t  F1F1  F1AF1  eig  (eig: A F1[:,j] = vals[j] F1[:,j])      *)
 Contracts == <<
   [routine |-> "cholesky",    input |-> "spd",    f1 |-> "lower",     f2 |-> "none",        f3 |-> "none", eq |-> "F1F1t",   opts |-> <<"buf">>],
@@ -347,8 +350,8 @@ Contracts == <<
   [routine |-> "hessenberg",  input |-> "square", f1 |-> "orth",      f2 |-> "hessenberg",  f3 |-> "none", eq |-> "F1F2F1t", opts |-> <<"cu", "setzero", "buf">>],
   [routine |-> "qr",          input |-> "square", f1 |-> "orth",      f2 |-> "quasiupper",  f3 |-> "none", eq |-> "F1F2F1t", opts |-> <<"cu", "eps", "buf">>],
   [routine |-> "qr_sym",      input |-> "sym",    f1 |-> "orth",      f2 |-> "diag",        f3 |-> "none", eq |-> "F1F2F1t", opts |-> <<"cu", "eps", "buf">>],
-  [routine |-> "eigen",       input |-> "square", f1 |-> "any",       f2 |-> "none",        f3 |-> "none", eq |-> "eig",     opts |-> <<"vec", "eps", "buf">>],
-  [routine |-> "eigen_sym",   input |-> "sym",    f1 |-> "any",       f2 |-> "none",        f3 |-> "none", eq |-> "eig",     opts |-> <<"vec", "eps", "buf">>],
+  [routine |-> "eigen",       input |-> "square", f1 |-> "free",      f2 |-> "none",        f3 |-> "none", eq |-> "eig",     opts |-> <<"vec", "eps", "buf">>],
+  [routine |-> "eigen_sym",   input |-> "sym",    f1 |-> "free",      f2 |-> "none",        f3 |-> "none", eq |-> "eig",     opts |-> <<"vec", "eps", "buf">>],
   [routine |-> "svd",         input |-> "tall",   f1 |-> "orth",      f2 |-> "nonnegdiag",  f3 |-> "orth", eq |-> "F1F2F3t", opts |-> <<"cu", "cv", "eps", "buf">>],
   [routine |-> "msqrt",       input |-> "spd",    f1 |-> "any",       f2 |-> "none",        f3 |-> "none", eq |-> "F1F1",    opts |-> <<>>],
   [routine |-> "msqrtinv",    input |-> "spd",    f1 |-> "any",       f2 |-> "none",        f3 |-> "none", eq |-> "F1AF1",   opts |-> <<>>] >>
@@ -397,7 +400,7 @@ ContractTable ==
 ASSUME PrintT(ToJson(ContractTable))
 
 Init == g \in Gens
-Next == UNCHANGED g
+Next == FALSE /\ UNCHANGED g
 Spec == Init /\ [][Next]_g
 
 (* ------------------------------------------------------------ model-level sanity of the knowledge *)
